@@ -260,7 +260,10 @@ static void drain_and_verify(End &x, size_t want) {
 	End &p = R->e[x.peer];
 	while (want > 0) {
 		size_t k = std::min(want, sizeof buf);
-		size_t n = bufferevent_read(x.bev, buf, k);
+		// look first, account, then remove: removing bytes can run the read callback again from inside the call (a filter
+		// below refills the input as soon as there is room), and that nested callback continues the stream where this one left it
+		ev_ssize_t got = evbuffer_copyout(in, buf, k);
+		size_t n = got > 0 ? (size_t)got : 0;
 		if (n == 0) break;
 		for (size_t j = 0; j < n; j++) {
 			unsigned char expv = stream_byte(p.id, x.rcvd);
@@ -273,8 +276,8 @@ static void drain_and_verify(End &x, size_t want) {
 		}
 		R->bytes_crossed += n;
 		want -= n;
+		evbuffer_drain(in, n);
 	}
-	(void)in;
 	if (x.rcvd > p.sent) V("C17", "C17.duplicate", "end %d verified %llu bytes, end %d only wrote %llu", x.id, (unsigned long long)x.rcvd, p.id, (unsigned long long)p.sent);
 }
 
@@ -539,7 +542,12 @@ static void end_free(int i, const char *why) {
 // the property is stated in ticks of virtual time as the loop sees it, and a stale cache or a wall-clock jump the
 // base has not noticed yet must not count against the library
 static int64_t wall_ms() { struct timeval tv; event_base_gettimeofday_cached(R->base, &tv); return (int64_t)tv.tv_sec * 1000 + tv.tv_usec / 1000; }
+static void ledger_epoch();
+static int64_t g_last_wall_ms;	// the latest wall time an I/O call was accounted at (reset per run)
 static void on_io(int fd, bool out, size_t n) {
+	// the wall clock as the base sees it went backwards (a jump the plan made): tick numbers repeat from here on, so the
+	// windows so far are judged and the accounting starts again
+	{ int64_t w = wall_ms(); if (w < g_last_wall_ms) { probe("ledger-restarted-after-wall-clock-jump-back"); ledger_epoch(); } g_last_wall_ms = w; }
 	for (int i = 0; i < R->nend; i++) {
 		End &x = R->e[i];
 		if (!x.exists || x.freed || !x.is_sock || x.fd != fd) continue;
@@ -1156,6 +1164,7 @@ static void build_topology(const Plan &p) {
 }
 
 static void execute(const Plan &p) {
+	g_last_wall_ms = 0;
 	Run run;
 	R = &run;
 	run.plan = &p;
